@@ -25,6 +25,14 @@
  *   del <id>                       explicit del of an object nothing usable points to
  *   chain <id> <n> <kind> <where>  n objects id..id+n-1 of kind R|P|A|H|U, each pointing to the next
  *   xcollect <tok>*                exact: TLS phase, root phase, then GC_Mark_Item on each word; dump; real GC_Sweep
+ *   xraise <id> <tok>*             exact: the same collection, but the Mark instance of ProbeM <id> throws when the marker reaches it: the
+ *                                  exception leaves the mark phase, GC_Sweep does not run, the mark bits set so far stay (dumped).  While
+ *                                  bits are set, new / pair / copy / chain / del are refused (a registry rehash would clear them).  The next
+ *                                  xcollect starts from those bits (known finding KF-C01-stale-marks).  <id> not reached: as xcollect.
+ *   xbox <id> <target>             exact: a Box on an object that other objects / roots may refer to (outside Box's ownership contract:
+ *                                  when the Box is swept, Box_Del deletes the target although it is reachable — reported as `I excluded`)
+ *   newraw <id> <kind> <arg> <where>   exact: a container (A L T U E F) allocated with new_raw: not registered; the collector does not follow a
+ *                                  path through it, and the oracle does not either (the chain must consist of registered objects)
  *   collect                        full: GC_Mark + GC_Sweep
  *   churn <n>                      full: allocate n unreferenced objects (drives the threshold)
  *   deepchild <n> <kind>           forked child: chain of n, forced collection; records the outcome (F27 witness)
@@ -59,6 +67,7 @@ typedef struct {
   Tok* el;                /* slots (P/M/R/B) or elements/values (containers) */
   long* key;              /* map keys: integers (Int / String keys) or object ids (Ref keys) */
   int kt, vt;             /* CURRENT key type (T/E) and element / value type (A/L/T/E): redefined by assign */
+  int raw;                /* allocated with new_raw: never registered */
 } Sh;
 
 static Sh* sh;                       /* shadow graph */
@@ -94,8 +103,12 @@ static void Probe_Del(var self) {
   if (fin[id] > 1) X("sig=gc-finalised-twice line=%zu what=probe %ld finalised %d times", curline, id, fin[id]);
   if (p->canary != canary_of(id)) X("sig=gc-canary line=%zu what=probe %ld canary damaged at finalisation", curline, id);
 }
+static long armed_id = -1;           /* xraise: the Mark instance of this probe throws */
+static int stale_now = 0;            /* mark bits are set between collections (an exception left a mark phase) */
+static size_t stale_before = 0;      /* entries that were marked when the last mark phase began */
 static void ProbeM_Mark(var self, var gc, void(*f)(var,void*)) {
   struct ProbeM* p = self;
+  if (armed_id >= 0 && p->id == armed_id) { throw(ValueError, "the Mark instance of probe %i throws", $I(armed_id)); }
   for (int i = 0; i < 4; i++) if (p->slot[i]) f(gc, p->slot[i]);
 }
 var Probe1 = Cello(Probe1, Instance(New, NULL, Probe_Del));
@@ -173,7 +186,8 @@ static var tok_word(Tok t);
 
 /* ---------------------------------------------------------------- shadow BFS (the direct oracle's reference) */
 static int* bfs_q;
-static void bfs_push(int id, size_t* qt) { if (id >= 0 && id <= maxid && sh[id].used && sh[id].alive && !reach[id]) { reach[id] = 1; bfs_q[(*qt)++] = id; } }
+/* an object allocated with new_raw is not registered: the collector does not trace it when it finds a pointer to it, and a path through it does not count */
+static void bfs_push(int id, size_t* qt) { if (id >= 0 && id <= maxid && sh[id].used && sh[id].alive && !sh[id].raw && !reach[id]) { reach[id] = 1; bfs_q[(*qt)++] = id; } }
 static void bfs_tok(Tok t, size_t* qt) { if (t.t == T_OBJ) bfs_push((int)t.v, qt); }
 /* roots: TLS entries, root-flagged objects, stack root slots (full mode) or the given words (exact mode) */
 static size_t shadow_reach(Tok* words, int nwords, int use_slots) {
@@ -223,8 +237,17 @@ static var word_load(int id, int slot) {
   return ((struct ProbeHead*)P(id))->slot[slot];
 }
 
+static int want_raw = 0;
 static var make_real(int kind, int k, int rootflag, long id, int kt, int vt) {
   var p = NULL;
+  if (want_raw) {
+    switch (kind) {
+      case K_A: return new_raw(Array, ety_type(vt));
+      case K_L: return new_raw(List, ety_type(vt));
+      case K_T: return new_raw(Table, ety_type(kt), ety_type(vt));
+      default:  return new_raw(Tree, ety_type(kt), ety_type(vt));
+    }
+  }
   switch (kind) {
     case K_P: p = rootflag ? alloc_root(probe_type(k)) : alloc(probe_type(k)); break;
     case K_M: p = rootflag ? alloc_root(ProbeM) : alloc(ProbeM); break;
@@ -353,6 +376,7 @@ static __attribute__((noinline)) void do_new_x(long id, int kind, int k, int roo
   if (slot >= 0) g_roots[slot] = p;
   setP((int)id, p);
   shadow_new(id, kind, k, rootflag, kt, vt);
+  sh[id].raw = want_raw;
   if (copyfrom >= 0) shadow_copy_content(&sh[id], &sh[copyfrom]);
   if (kind == K_B) { sh[id].el[0].t = T_OBJ; sh[id].el[0].v = boxtgt; ((struct Box*)p)->val = P(boxtgt); sh[boxtgt].owner = (int)id + 1; }
   if (slot >= 0) { root_tok[slot].t = T_OBJ; root_tok[slot].v = id; }
@@ -440,11 +464,16 @@ static void shadow_del(int id) {
   if (o->kind == K_B && o->el[0].t == T_OBJ && usable(o->el[0].v)) shadow_del((int)o->el[0].v);
 }
 
-static __attribute__((noinline)) void do_xcollect(Tok* words, int nw) {
+/* the three phases of GC_Mark with a chosen word list instead of the stack (C01_MARK_CLEARS_FIRST: defined by vlib/props/c01.py when the
+   GC_Mark of the tree under test clears every mark bit before its first phase) */
+static __attribute__((noinline)) void mark_phases(Tok* words, int nw) {
   struct GC* gc = G();
-  shadow_reach(words, nw, 0);
-  /* the three phases of GC_Mark with a chosen word list instead of the stack */
   if (gc->nitems != 0) {
+#ifdef C01_MARK_CLEARS_FIRST
+    for (size_t i = 0; i < gc->nslots; i++) gc->entries[i].marked = false;
+#endif
+    stale_before = 0;
+    for (size_t i = 0; i < gc->nslots; i++) if (gc->entries[i].hash && gc->entries[i].marked) stale_before++;
     mark(current(Thread), gc, (void(*)(var,void*))GC_Mark_And_Recurse);
     for (size_t i = 0; i < gc->nslots; i++) {
       if (gc->entries[i].hash is 0) { continue; }
@@ -453,13 +482,19 @@ static __attribute__((noinline)) void do_xcollect(Tok* words, int nw) {
     }
     for (int i = 0; i < nw; i++) GC_Mark_Item(gc, tok_word(words[i]));
   }
-  /* white-box: mark bits by object */
-  static unsigned char* mk = NULL; if (!mk) mk = calloc(MAXOBJ, 1);
-  static unsigned char* fr = NULL; if (!fr) fr = calloc(MAXOBJ, 1);
+}
+
+static unsigned char* mk = NULL;
+static unsigned char* fr = NULL;
+/* white-box: mark bits by object */
+static size_t read_marks(void) {
+  struct GC* gc = G();
+  if (!mk) mk = calloc(MAXOBJ, 1);
+  if (!fr) fr = calloc(MAXOBJ, 1);
   memset(mk, 0, (size_t)maxid + 2); memset(fr, 0, (size_t)maxid + 2);
-  size_t nmarked = 0, nent = 0;
+  size_t nmarked = 0;
   for (int i = 0; i <= maxid; i++) {
-    if (!sh[i].used || !sh[i].alive) continue;
+    if (!sh[i].used || !sh[i].alive || sh[i].raw) continue;
     var p = P(i); int found = 0;
     uint64_t s = gc->nslots ? GC_Hash(p) % gc->nslots : 0;
     for (size_t j = 0; j < gc->nslots; j++) {
@@ -469,25 +504,39 @@ static __attribute__((noinline)) void do_xcollect(Tok* words, int nw) {
     }
     if (!found) X("sig=gc-registry line=%zu what=live object %d is not in the registry before the sweep", curline, i);
   }
-  for (size_t i = 0; i < gc->nslots; i++) if (gc->entries[i].hash) nent++;
+  return nmarked;
+}
+
+/* after the mark phases: dump, real GC_Sweep, oracle */
+static __attribute__((noinline)) void finish_collect(const char* tag) {
+  struct GC* gc = G();
+  size_t nmarked = read_marks();
   char mtxt[sizeof idsetbuf]; strcpy(mtxt, set_text(mk, 1));
   GC_Sweep(gc);
   pin();
   size_t nfreed = 0;
   for (int i = 0; i <= maxid; i++) {
-    if (!sh[i].used || !sh[i].alive) continue;
+    if (!sh[i].used || !sh[i].alive || sh[i].raw) continue;
     int gone = (sh[i].kind == K_P || sh[i].kind == K_M) ? fin[i] > 0 : !GC_Mem_Ptr(gc, P(i));
     if ((sh[i].kind == K_P || sh[i].kind == K_M) && (fin[i] > 0) != !GC_Mem_Ptr(gc, P(i)))
       X("sig=gc-ledger line=%zu what=probe %d: finalised=%d but registered=%d after the sweep", curline, i, fin[i], (int)GC_Mem_Ptr(gc, P(i)));
     if (gone) { fr[i] = 1; nfreed++; }
   }
-  O("x marked=%s freed=%s", mtxt, set_text(fr, 1));
-  /* oracle */
+  O("%s marked=%s freed=%s", tag, mtxt, set_text(fr, 1));
+  /* oracle.  When mark bits were set before the mark phase began, a lost reachable object is the known finding KF-C01-stale-marks;
+     an object freed by the destructor of an unreachable Box that owned it is Box's ownership contract (an exclusion, reported as I). */
+  const char* lost = stale_before ? "gc-stale-marks" : "gc-reclaimed-reachable";
   for (int i = 0; i <= maxid; i++) {
-    if (!sh[i].used || !sh[i].alive) continue;
-    if (reach[i] && !mk[i]) X("sig=gc-unmarked-reachable line=%zu what=object %d reachable from the roots was not marked", curline, i);
-    if (reach[i] && fr[i]) { X("sig=gc-reclaimed-reachable line=%zu what=object %d reachable from the roots was swept", curline, i); }
-    if (sh[i].rootflag && fr[i]) X("sig=gc-reclaimed-reachable line=%zu what=root-registered object %d was swept", curline, i);
+    if (!sh[i].used || !sh[i].alive || sh[i].raw) continue;
+    int ow = sh[i].owner - 1;
+    int by_box = sh[i].owner && usable(ow) && !reach[ow] && fr[ow];
+    if (reach[i] && !mk[i]) X("sig=%s line=%zu what=object %d reachable from the roots was not marked%s", stale_before ? "gc-stale-marks" : "gc-unmarked-reachable", curline, i,
+                              stale_before ? " (mark bits left by a mark phase that an exception left were still set)" : "");
+    if ((reach[i] || sh[i].rootflag) && fr[i]) {
+      if (by_box) I("excluded line=%zu what=object %d (reachable) was deleted by the destructor of the unreachable Box %d that owned it", curline, i, ow);
+      else if (reach[i]) X("sig=%s line=%zu what=object %d reachable from the roots was swept", lost, curline, i);
+      else X("sig=%s line=%zu what=root-registered object %d was swept", lost, curline, i);
+    }
   }
   for (int i = 0; i <= maxid; i++) if (fr[i]) sh[i].alive = 0;
   for (int i = 0; i <= maxid; i++) {
@@ -495,7 +544,29 @@ static __attribute__((noinline)) void do_xcollect(Tok* words, int nw) {
     if (reach[i] && !content_ok(i)) X("sig=gc-canary line=%zu what=content of reachable object %d changed by the collection", curline, i);
   }
   for (size_t i = 0; i < gc->nslots; i++) if (gc->entries[i].hash && gc->entries[i].marked) { X("sig=gc-registry line=%zu what=mark bit left set after the sweep", curline); break; }
+  stale_now = 0;
   n_x++; n_freed_total += nfreed; n_marked_total += nmarked;
+}
+
+static __attribute__((noinline)) void do_xcollect(Tok* words, int nw) {
+  shadow_reach(words, nw, 0);
+  mark_phases(words, nw);
+  finish_collect("x");
+}
+
+/* a collection whose mark phase is left by an exception: the Mark instance of probe `id` throws */
+static __attribute__((noinline)) void do_xraise(long id, Tok* words, int nw) {
+  shadow_reach(words, nw, 0);
+  var exc;
+  armed_id = id;
+  V_TRY(exc, mark_phases(words, nw));
+  armed_id = -1;
+  if (!exc) { finish_collect("xr completed"); return; }
+  read_marks();
+  O("xr raised marked=%s", set_text(mk, 1));
+  I("raise line=%zu exc=%s marked-before=%zu: GC_Sweep skipped, mark bits stay", curline, v_exc_name(exc), stale_before);
+  stale_now = 1;
+  n_x++;
 }
 
 static __attribute__((noinline)) void real_collect(void) { struct GC* gc = G(); GC_Mark(gc); GC_Sweep(gc); }
@@ -651,6 +722,7 @@ int main(int argc, char** argv) {
     } else if (!strcmp(w[0], "new")) {
       started = 1;
       long id, arg = 0; int rf, slot;
+      if (stale_now) BAD;
       if (nw != 5 || !parse_long(w[1], &id) || id < 0 || id >= MAXOBJ || sh[id].used) BAD;
       int kt, vt;
       int kind = kind_of(w[2], &rf, &kt, &vt); if (kind == K_NONE) BAD;
@@ -664,6 +736,7 @@ int main(int argc, char** argv) {
     } else if (!strcmp(w[0], "pair")) {
       started = 1;
       long ia, ib; int slot;
+      if (stale_now) BAD;
       if (nw != 4 || !parse_long(w[1], &ia) || !parse_long(w[2], &ib) || ia < 0 || ib < 0 || ia >= MAXOBJ || ib >= MAXOBJ || ia == ib
           || sh[ia].used || sh[ib].used || !parse_where(w[3], &slot)) BAD;
       if (mode_full && slot < 0) BAD;
@@ -674,12 +747,14 @@ int main(int argc, char** argv) {
       if (nw != 4 || !parse_long(w[1], &id) || !usable(id) || !parse_long(w[2], &slot) || !parse_tok(w[3], &t) || !tok_ok(t)) BAD;
       if (!(sh[id].kind == K_P || sh[id].kind == K_M || sh[id].kind == K_R) || slot < 0 || slot >= sh[id].k) BAD;
       if (sh[id].kind == K_M && !(t.t == T_OBJ || t.t == T_NIL)) BAD;   /* its Mark instance hands every non-NULL slot to the callback */
+      if (sh[id].kind == K_M && t.t == T_OBJ && sh[t.v].raw) BAD;       /* ... which would trace an unregistered object */
       word_store((int)id, (int)slot, tok_word(t)); sh[id].el[slot] = t;
       O("ok");
     } else if (!strcmp(w[0], "push")) {
       long id; Tok t;
       if (nw != 3 || !parse_long(w[1], &id) || !usable(id) || !is_seq(sh[id].kind) || !parse_tok(w[2], &t) || !tok_ok(t)) BAD;
       if (!(t.t == T_OBJ || (t.t == T_NIL && sh[id].kind != K_H))) BAD;
+      if (sh[id].kind == K_H && t.t == T_OBJ && sh[t.v].raw) BAD;
       seq_push((int)id, t); O("ok");
     } else if (!strcmp(w[0], "pop")) {
       long id, idx;
@@ -689,6 +764,7 @@ int main(int argc, char** argv) {
       long id, idx; Tok t;
       if (nw != 4 || !parse_long(w[1], &id) || !usable(id) || !is_seq(sh[id].kind) || !parse_long(w[2], &idx) || idx < 0 || idx >= sh[id].n || !parse_tok(w[3], &t) || !tok_ok(t)) BAD;
       if (!(t.t == T_OBJ || (t.t == T_NIL && sh[id].kind != K_H))) BAD;
+      if (sh[id].kind == K_H && t.t == T_OBJ && sh[t.v].raw) BAD;
       seq_set((int)id, (int)idx, t); O("ok");
     } else if (!strcmp(w[0], "tset")) {
       long id, key; Tok t;
@@ -738,6 +814,7 @@ int main(int argc, char** argv) {
     } else if (!strcmp(w[0], "copy")) {
       started = 1;
       long id, sr; int slot;
+      if (stale_now) BAD;
       if (nw != 4 || !parse_long(w[1], &id) || id < 0 || id >= MAXOBJ || sh[id].used || !parse_long(w[2], &sr) || !parse_where(w[3], &slot)) BAD;
       if (!usable(sr) || !(is_arr(sh[sr].kind) || is_map(sh[sr].kind) || sh[sr].kind == K_H)) BAD;
       do_new_x(id, sh[sr].kind, 0, 0, -1, slot, sh[sr].kt, sh[sr].vt, sr);
@@ -757,16 +834,18 @@ int main(int argc, char** argv) {
       O("ok");
     } else if (!strcmp(w[0], "del")) {
       long id;
-      if (nw != 2 || !parse_long(w[1], &id) || !usable(id) || has_incoming((int)id) || ghost[id]) BAD;
+      if (nw != 2 || !parse_long(w[1], &id) || !usable(id) || has_incoming((int)id) || ghost[id] || stale_now) BAD;
       if (sh[id].kind == K_B && sh[id].el[0].t == T_OBJ && usable(sh[id].el[0].v) && sh[sh[id].el[0].v].kind == K_B) BAD;
       del_count = 0; shadow_del((int)id);
-      del(P((int)id)); pin();
+      if (sh[id].raw) del_raw(P((int)id)); else del(P((int)id));
+      pin();
       if ((sh[id].kind == K_P || sh[id].kind == K_M) && fin[id] != 1) X("sig=gc-ledger line=%zu what=del of probe %ld ran its destructor %d times", curline, id, fin[id]);
       if (GC_Mem_Ptr(G(), P((int)id))) X("sig=gc-registry line=%zu what=object %ld still registered after del", curline, id);
       O("del %d", del_count);
     } else if (!strcmp(w[0], "chain")) {
       started = 1;
       long id, cn; int slot;
+      if (stale_now) BAD;
       if (nw != 5 || !parse_long(w[1], &id) || !parse_long(w[2], &cn) || id < 0 || cn < 1 || id + cn > MAXOBJ || !parse_where(w[4], &slot)) BAD;
       int kt, vt;
       int kind = chain_kind(w[3], &kt, &vt); if (kind == K_NONE) BAD;
@@ -783,6 +862,32 @@ int main(int argc, char** argv) {
       for (int i = 1; i < nw; i++) if (!parse_tok(w[i], &ws[i - 1]) || !tok_ok(ws[i - 1])) ok = 0;
       if (!ok) BAD;
       do_xcollect(ws, nw - 1);
+    } else if (!strcmp(w[0], "xraise")) {
+      long id;
+      if (mode_full || nw < 2) BAD;
+      started = 1;
+      if (!parse_long(w[1], &id) || !usable(id) || sh[id].kind != K_M) BAD;
+      Tok ws[40]; int ok = 1;
+      for (int i = 2; i < nw; i++) if (!parse_tok(w[i], &ws[i - 2]) || !tok_ok(ws[i - 2])) ok = 0;
+      if (!ok) BAD;
+      do_xraise(id, ws, nw - 2);
+    } else if (!strcmp(w[0], "xbox")) {
+      long id, tg;
+      if (mode_full || stale_now || nw != 3) BAD;
+      started = 1;
+      if (!parse_long(w[1], &id) || id < 0 || id >= MAXOBJ || sh[id].used || !parse_long(w[2], &tg)) BAD;
+      if (!usable(tg) || owned(tg) || sh[tg].kind == K_B || sh[tg].raw) BAD;
+      do_new(id, K_B, 1, 0, tg, -1, E_R, E_R);
+      O("new %ld", id);
+    } else if (!strcmp(w[0], "newraw")) {
+      long id; int slot, kt, vt;
+      if (mode_full || stale_now || nw != 5) BAD;
+      started = 1;
+      if (!parse_long(w[1], &id) || id < 0 || id >= MAXOBJ || sh[id].used || strlen(w[2]) != 1 || !parse_where(w[4], &slot)) BAD;
+      int kind = kind_letter(w[2][0], &kt, &vt);
+      if (!(is_arr(kind) || is_map(kind)) || !parse_types(kind, w[3], &kt, &vt)) BAD;
+      want_raw = 1; do_new(id, kind, 0, 0, -1, slot, kt, vt); want_raw = 0;
+      O("new %ld", id);
     } else if (!strcmp(w[0], "collect")) {
       if (!mode_full || nw != 1) BAD;
       do_collect();
